@@ -348,7 +348,7 @@ func init() {
 				}
 				i++
 			}
-			n := int64(c.Pick(20000, 600000))
+			n := int64(c.Pick(20000, 6000000))
 			for k := int64(0); k < n; k++ {
 				if c.Mine(i) {
 					c.Idle()
